@@ -56,6 +56,14 @@ class WriteSite:
     def key(self) -> str:
         return f"{self.member.qual} [{self.kind} {self.target}]"
 
+    sig: str = ""  # what is written, independent of the names of temporaries: 'key' | .attr | call .m | *
+
+    @property
+    def class_key(self) -> str:
+        """<module>::<Class> [<kind> <signature>] - stable when a write moves into a helper of the same class
+        or when temporaries are renamed."""
+        return f"{self.member.cls.module.path.split('cr/cube/')[-1]}::{self.member.cls.name} [{self.sig}]"
+
 
 def _root(e: ast.AST) -> ast.AST:
     while isinstance(e, (ast.Subscript, ast.Attribute)):
@@ -214,6 +222,74 @@ class _FunctionFreshness:
         return "Elem"
 
 
+def _literal_loop_values(fn: ast.AST, name: str) -> Optional[List[str]]:
+    """`for name in ("top", "bottom")` -> ['top', 'bottom']"""
+    for n in ast.walk(fn):
+        if isinstance(n, (ast.For, ast.comprehension)) and isinstance(n.target, ast.Name) and n.target.id == name:
+            if isinstance(n.iter, (ast.Tuple, ast.List)) and n.iter.elts and all(isinstance(x, ast.Constant) and isinstance(x.value, str) for x in n.iter.elts):
+                return [x.value for x in n.iter.elts]
+    return None
+
+
+def _signatures(kind: str, target: ast.AST, node: ast.AST, fn: ast.AST) -> List[str]:
+    if kind.startswith("call "):
+        if kind == "call .setflags" and isinstance(node, ast.Call) and [k.arg for k in node.keywords] == ["write"] and u(node.keywords[0].value) == "False" and not node.args:
+            return ["read-only flag"]
+        return [kind]
+    if kind == "out-arg":
+        return ["out-arg"]
+    if isinstance(target, ast.Subscript):
+        k = target.slice
+        if isinstance(k, ast.Constant) and isinstance(k.value, str):
+            return [f"{kind} {k.value!r}"]
+        if isinstance(k, ast.Name):
+            vals = _literal_loop_values(fn, k.id)
+            if vals:
+                return [f"{kind} {v!r}" for v in vals]
+        if isinstance(target.value, ast.Attribute) and target.value.attr == "__dict__":
+            return [f"{kind} __dict__"]
+        return [f"{kind} [*]"]
+    if isinstance(target, ast.Attribute):
+        if u(target).endswith(".flags.writeable") and isinstance(node, ast.Assign) and u(node.value) == "False":
+            return ["read-only flag"]
+        return [f"{kind} .{target.attr}"]
+    return [f"{kind} {u(target)}"]
+
+
+def _param_freshness(repo: Repo, m: Member, param: str) -> Optional[str]:
+    """Class of the argument bound to `param` of the private method `m` over ALL its call sites in the package
+    (None when it has none or is not private)."""
+    if not m.name.startswith("_") or m.name.startswith("__"):
+        return None
+    try:
+        pos = m.params.index(param)
+    except ValueError:
+        return None
+    out = None
+    n_sites = 0
+    for caller in repo.all_members():
+        if caller.cls is not m.cls and m.cls not in caller.cls.mro and caller.cls not in m.cls.all_subclasses():
+            continue
+        fr = None
+        for c in ast.walk(caller.node):
+            if isinstance(c, ast.Call) and isinstance(c.func, ast.Attribute) and c.func.attr == m.name and isinstance(c.func.value, ast.Name) and c.func.value.id in ("self", "cls"):
+                arg = None
+                if pos < len(c.args):
+                    arg = c.args[pos]
+                else:
+                    for k in c.keywords:
+                        if k.arg == param:
+                            arg = k.value
+                if arg is None:
+                    return None
+                fr = fr or _FunctionFreshness(caller.node, caller.params)
+                cl = fr.classify(arg)
+                out = cl if out is None else _FunctionFreshness._join(out, cl)
+                n_sites += 1
+    # a method that is also passed around as a value (getattr / callbacks) may have unseen callers
+    return out if n_sites else None
+
+
 def inventory(repo: Repo) -> List[WriteSite]:
     sites: List[WriteSite] = []
     for m in repo.all_members():
@@ -227,7 +303,12 @@ def inventory(repo: Repo) -> List[WriteSite]:
                 cls = "Self" if in_init else "Shared"
             else:
                 cls = fr.classify(r)
-            sites.append(WriteSite(m, kind, u(target), rt, cls, getattr(node, "lineno", 0)))
+            if cls == "Shared" and isinstance(r, ast.Name) and r.id in m.params and r.id not in fr.env:
+                pc = _param_freshness(repo, m, r.id)
+                if pc is not None:
+                    cls = pc
+            for sg in _signatures(kind, target, node, m.node):
+                sites.append(WriteSite(m, kind, u(target), rt, cls, getattr(node, "lineno", 0), sg))
 
         for n in ast.walk(m.node):
             if isinstance(n, (ast.Assign, ast.AnnAssign)):
@@ -245,7 +326,7 @@ def inventory(repo: Repo) -> List[WriteSite]:
                     # `x += ...` mutates in place when x is an array/list that is not fresh
                     c = fr.classify(n.target)
                     if c != "Fresh":
-                        sites.append(WriteSite(m, "augstore", n.target.id, n.target.id, c, n.lineno))
+                        sites.append(WriteSite(m, "augstore", n.target.id, n.target.id, c, n.lineno, "augstore " + n.target.id))
             elif isinstance(n, ast.Delete):
                 for t in n.targets:
                     if isinstance(t, (ast.Subscript, ast.Attribute)):
